@@ -4,7 +4,8 @@ Written from the WebAssembly 1.0 core specification (binary format ch. 5, text f
 with its OWN opcode table - nothing here imports ppci.
 
     encode(desc, **variants) -> bytes     reference binary (canonical by default)
-    to_wat(desc, folded=False) -> str     text rendering, flat or folded
+    to_wat(desc, folded, style, inline_exports, names) -> str   text rendering: flat or folded, integer
+                                          spelling, export abbreviation, numeric / unique / shadowing names
     flatten(body)                         tree body -> linear [(op, imms)] with block markers
     func_type(desc, funcidx)              (params, results) of a function index (imports first)
 
@@ -365,7 +366,57 @@ def _f64_text(bits):
     return struct.unpack("<d", struct.pack("<Q", bits))[0].hex()
 
 
-def _imm_text(op, imms, style=0):
+class _Names:
+    """Symbolic identifiers of the text rendering.  mode 0: numeric indices only; 1: unique names
+    ($f3, $g0, $l2, $B5); 2: names that shadow and collide on purpose - nested labels re-use $L0/$L1
+    (a reference means the INNERMOST enclosing label of that name; a shadowed outer label is
+    referenced by depth), and function k, global k and local k are all called $x<k> (separate index
+    spaces).  Parameters are always referenced by index (a `(type n)` use binds no names)."""
+
+    def __init__(self, mode, nparams=0, cond_names=True):
+        self.mode = mode
+        self.nparams = nparams
+        self.labels = []  # innermost last; None = anonymous
+        self.count = 0
+        self.cond_names = cond_names  # False: labels are referenced by depth inside a folded if's condition
+        self.numeric = 0
+
+    def func(self, i):
+        return str(i) if not self.mode else ("$f%d" if self.mode == 1 else "$x%d") % i
+
+    def glob(self, i):
+        return str(i) if not self.mode else ("$g%d" if self.mode == 1 else "$x%d") % i
+
+    def local(self, i):
+        if not self.mode or i < self.nparams:
+            return str(i)
+        return ("$l%d" if self.mode == 1 else "$x%d") % i
+
+    def open(self):
+        """Enter a block/loop/if; returns its label name or None."""
+        name = None
+        if self.mode == 1:
+            name = "$B%d" % self.count
+        elif self.mode == 2 and self.count % 4 != 3:
+            name = "$L%d" % (len(self.labels) % 2)
+        self.count += 1
+        self.labels.append(name)
+        return name
+
+    def close(self):
+        return self.labels.pop()
+
+    def label(self, depth):
+        if depth >= len(self.labels) or self.numeric:
+            return str(depth)  # the function's own label has no name
+        name = self.labels[len(self.labels) - 1 - depth]
+        if name is None or name in self.labels[len(self.labels) - depth :]:
+            return str(depth)  # anonymous, or shadowed by an inner label of the same name
+        return name
+
+
+def _imm_text(op, imms, style=0, names=None):
+    names = names or _Names(0)
     if op == "i32.const":
         v = _signed(imms[0], 32)
         if style == 1 and v < 0:
@@ -383,7 +434,15 @@ def _imm_text(op, imms, style=0):
     if op == "f64.const":
         return " " + _f64_text(imms[0])
     if op == "br_table":
-        return " " + " ".join(str(x) for x in list(imms[0]) + [imms[1]])
+        return " " + " ".join(names.label(x) for x in list(imms[0]) + [imms[1]])
+    if op in ("br", "br_if"):
+        return " " + names.label(imms[0])
+    if op == "call":
+        return " " + names.func(imms[0])
+    if op in ("local.get", "local.set", "local.tee"):
+        return " " + names.local(imms[0])
+    if op in ("global.get", "global.set"):
+        return " " + names.glob(imms[0])
     if op == "call_indirect":
         return " (type %d)" % imms[0]
     if op in ("memory.size", "memory.grow"):
@@ -404,28 +463,49 @@ def _bt_text(bt):
     return "" if bt is None else " (result %s)" % bt
 
 
-def _wat_flat(body, ind, lines, style):
+def _id_text(name):
+    return "" if name is None else " " + name
+
+
+def _wat_flat(body, ind, lines, style, names=None):
+    names = names or _Names(0)
     for op, imms in flatten(body):
         if op in ("end", "else"):
             ind[0] -= 1
         if op in ("block", "loop", "if"):
-            lines.append("  " * ind[0] + op + _bt_text(imms[0]))
+            lines.append("  " * ind[0] + op + _id_text(names.open()) + _bt_text(imms[0]))
+        elif op == "end":
+            name = names.close()
+            lines.append("  " * ind[0] + op + (_id_text(name) if names.mode == 1 else ""))  # `end $id` is optional
+        elif op == "else":
+            lines.append("  " * ind[0] + op + (_id_text(names.labels[-1]) if names.mode == 1 else ""))
         else:
-            lines.append("  " * ind[0] + op + _imm_text(op, imms, style))
+            lines.append("  " * ind[0] + op + _imm_text(op, imms, style, names))
         if op in ("block", "loop", "if", "else"):
             ind[0] += 1
 
 
-def _wat_folded(node, style):
+def _wat_folded(node, style, names=None):
+    names = names or _Names(0)
     op = node[0]
     if op in ("block", "loop"):
-        return "(%s%s %s)" % (op, _bt_text(node[1]), " ".join(_wat_folded(n, style) for n in node[2]))
+        name = names.open()
+        s = "(%s%s%s %s)" % (op, _id_text(name), _bt_text(node[1]), " ".join(_wat_folded(n, style, names) for n in node[2]))
+        names.close()
+        return s
     if op == "if":
-        s = "(if%s %s (then %s)" % (_bt_text(node[1]), _wat_folded(node[2], style), " ".join(_wat_folded(n, style) for n in node[3]))
+        if not names.cond_names:
+            names.numeric += 1
+        cond = _wat_folded(node[2], style, names)  # the condition is outside the scope of the if's label
+        if not names.cond_names:
+            names.numeric -= 1
+        name = names.open()
+        s = "(if%s%s %s (then %s)" % (_id_text(name), _bt_text(node[1]), cond, " ".join(_wat_folded(n, style, names) for n in node[3]))
         if node[4] is not None:
-            s += " (else %s)" % " ".join(_wat_folded(n, style) for n in node[4])
+            s += " (else %s)" % " ".join(_wat_folded(n, style, names) for n in node[4])
+        names.close()
         return s + ")"
-    return "(%s%s%s)" % (op, _imm_text(op, node[1], style), "".join(" " + _wat_folded(c, style) for c in node[2]))
+    return "(%s%s%s)" % (op, _imm_text(op, node[1], style, names), "".join(" " + _wat_folded(c, style, names) for c in node[2]))
 
 
 def _data_text(hexs):
@@ -433,10 +513,14 @@ def _data_text(hexs):
     return "".join(chr(c) if 32 <= c < 127 and c not in (34, 92) else "\\%02x" % c for c in b)
 
 
-def to_wat(desc, folded=False, style=0, inline_exports=False):
+def to_wat(desc, folded=False, style=0, inline_exports=False, names=0, cond_names=True):
     """WAT text of the module.  style: 0 signed decimal ints, 1 unsigned spelling of negative
     i32 constants, 2 hex integers.  inline_exports: `(func (export "n") ...)` abbreviations for
-    function exports instead of separate export fields."""
+    function exports instead of separate export fields.  names: 0 numeric indices, 1 unique
+    symbolic names for labels/functions/globals/locals, 2 shadowing labels and names colliding
+    across index spaces (see _Names).  cond_names=False: branches inside the condition of a folded
+    `if` use numeric depths (exclusion for C21-KF3)."""
+    N0 = _Names(names)
     L = ["(module"]
     for ps, rs in desc["types"]:
         s = "  (type (func"
@@ -445,13 +529,17 @@ def to_wat(desc, folded=False, style=0, inline_exports=False):
         if rs:
             s += " (result %s)" % " ".join(rs)
         L.append(s + "))")
+    fi = gi = 0
     for im in desc.get("imports", []):
         if im["kind"] == "func":
-            L.append('  (import "%s" "%s" (func (type %d)))' % (im["mod"], im["name"], im["type"]))
+            L.append('  (import "%s" "%s" (func%s (type %d)))' % (im["mod"], im["name"], " " + N0.func(fi) if names else "", im["type"]))
+            fi += 1
         else:
             gt = "(mut %s)" % im["vt"] if im["mut"] else im["vt"]
-            L.append('  (import "%s" "%s" (global %s))' % (im["mod"], im["name"], gt))
+            L.append('  (import "%s" "%s" (global%s %s))' % (im["mod"], im["name"], " " + N0.glob(gi) if names else "", gt))
+            gi += 1
     nfi = n_func_imports(desc)
+    ngi = n_global_imports(desc)
     inl = {}
     if inline_exports:
         for e in desc.get("exports", []):
@@ -464,32 +552,40 @@ def to_wat(desc, folded=False, style=0, inline_exports=False):
     if desc.get("mem"):
         m = desc["mem"]
         L.append("  (memory %d%s)" % (m["min"], "" if m["max"] is None else " %d" % m["max"]))
-    for g in desc.get("globals", []):
+    for i, g in enumerate(desc.get("globals", [])):
         gt = "(mut %s)" % g["vt"] if g["mut"] else g["vt"]
-        L.append("  (global %s %s)" % (gt, _wat_folded(g["init"], style)))
+        L.append("  (global%s %s %s)" % (" " + N0.glob(ngi + i) if names else "", gt, _wat_folded(g["init"], style, N0)))
     for i, f in enumerate(desc["funcs"]):
+        nparams = len(desc["types"][f["type"]][0])
+        N = _Names(names, nparams, cond_names)
         head = "  (func"
+        if names:
+            head += " " + N.func(nfi + i)
         for n in inl.get(i + nfi, []):
             head += ' (export "%s")' % n
         head += " (type %d)" % f["type"]
         if f["locals"]:
-            head += " (local %s)" % " ".join(f["locals"])
+            if names:
+                head += "".join(" (local %s %s)" % (N.local(nparams + k), t) for k, t in enumerate(f["locals"]))
+            else:
+                head += " (local %s)" % " ".join(f["locals"])
         L.append(head)
         if folded:
             for n in f["body"]:
-                L.append("    " + _wat_folded(n, style))
+                L.append("    " + _wat_folded(n, style, N))
         else:
             ind = [2]
-            _wat_flat(f["body"], ind, L, style)
+            _wat_flat(f["body"], ind, L, style, N)
         L.append("  )")
     for e in desc.get("exports", []):
         if inline_exports and e["kind"] == "func" and e["idx"] >= nfi:
             continue
-        L.append('  (export "%s" (%s %d))' % (e["name"], e["kind"], e["idx"]))
+        ref = N0.func(e["idx"]) if e["kind"] == "func" else N0.glob(e["idx"]) if e["kind"] == "global" else str(e["idx"])
+        L.append('  (export "%s" (%s %s))' % (e["name"], e["kind"], ref))
     if desc.get("start") is not None:
-        L.append("  (start %d)" % desc["start"])
+        L.append("  (start %s)" % N0.func(desc["start"]))
     for e in desc.get("elems", []):
-        L.append("  (elem (i32.const %d) %s)" % (e["offset"], " ".join(str(x) for x in e["funcs"])))
+        L.append("  (elem (i32.const %d) %s)" % (e["offset"], " ".join(N0.func(x) for x in e["funcs"])))
     for d in desc.get("datas", []):
         if folded:
             L.append('  (data (offset (i32.const %d)) "%s")' % (d["offset"], _data_text(d["bytes"])))
